@@ -1,5 +1,10 @@
 -- aggregates all property modules
 import Rmk.Properties.C07
+import Rmk.Properties.C08
+import Rmk.Properties.C11
+import Rmk.Properties.C13
 import Rmk.Properties.C17
 import Rmk.Properties.C18
-import Rmk.Properties.C13
+import Rmk.Proofs.BytesLemmas
+import Rmk.Proofs.Merkle
+import Rmk.Proofs.NodeIter
